@@ -35,6 +35,10 @@ type CallAssert struct {
 	Ord    int    // 1-based, 0 = every call
 	Clause *Clause
 	Used   bool
+	// InHelpers: the function under contract has no call site of its own that the
+	// pattern can match, so the assertion applies to the matching call inside a
+	// callee expanded in place (code moved into a small helper)
+	InHelpers bool
 }
 
 type Contract struct {
